@@ -266,6 +266,7 @@ func trimStack(st string) string {
 type chunkResult struct {
 	Stats      Stats        `json:"stats"`
 	Violations []*Violation `json:"violations"`
+	Truncated  bool         `json:"truncated,omitempty"`
 }
 
 // WorkerMain is the body of a worker subprocess: it reads "space lo hi" lines
@@ -300,13 +301,20 @@ func WorkerMain(checkID, tier string) {
 		lo, _ := strconv.ParseInt(f[1], 10, 64)
 		hi, _ := strconv.ParseInt(f[2], 10, 64)
 		sp := &plan.Spaces[si]
+		truncated := false
 		for i := lo; i < hi; i++ {
 			c.runCase(sp, i)
+			if len(c.viol) >= 40 {
+				// a tree this broken needs no further cases from this chunk (each may be
+				// expensive: step budgets, crashes); the parent records the truncation
+				truncated = i+1 < hi
+				break
+			}
 		}
 		if sp.Desc != nil && lo < hi {
 			c.Sample(map[string]any{"space": sp.Name, "index": lo, "case": sp.Desc(lo)})
 		}
-		res := chunkResult{Stats: c.stats}
+		res := chunkResult{Stats: c.stats, Truncated: truncated}
 		for _, v := range c.viol {
 			res.Violations = append(res.Violations, v)
 		}
@@ -331,6 +339,7 @@ type Agg struct {
 	Exhaustive bool
 	Crashes    int
 	abort      bool
+	truncated  int
 	Notes      []string
 	Start      time.Time
 	Plan       *Plan
@@ -360,6 +369,15 @@ func (a *Agg) add(r *chunkResult) {
 	}
 	for _, v := range r.Violations {
 		a.AddViolation(v)
+	}
+	if r.Truncated {
+		a.Exhaustive = false
+		a.truncated++
+	}
+	if len(a.Violations) > 300 && !a.abort {
+		a.abort = true
+		a.Exhaustive = false
+		a.Notes = append(a.Notes, "more than 300 distinct violations; exploration stopped early")
 	}
 }
 
